@@ -130,3 +130,36 @@ package schema
 //@   ensures !ok ==> c == nil
 //@   loop 1 invariant 0 <= loopk && loopk <= len(t.Columns)
 //@   loop 1 invariant (forall i int :: 0 <= i && i < loopk ==> t.Columns[i].Name != name)
+
+//@ func (t *Table) Index(name string) (r *Index, ok bool)
+//@   requires t != nil
+//@   requires (forall i int :: 0 <= i && i < len(t.Indexes) ==> t.Indexes[i] != nil)
+//@   pure
+//@   modifies nothing
+//@   ensures found-iff-an-index-has-the-name: ok == (exists i int :: 0 <= i && i < len(t.Indexes) && t.Indexes[i].Name == name)
+//@   ensures found-index-is-listed-under-the-name: ok ==> r != nil && r.Name == name && (exists i int :: 0 <= i && i < len(t.Indexes) && t.Indexes[i] == r)
+//@   ensures !ok ==> r == nil
+//@   loop 1 invariant 0 <= loopk && loopk <= len(t.Indexes)
+//@   loop 1 invariant (forall i int :: 0 <= i && i < loopk ==> t.Indexes[i].Name != name)
+
+//@ func (t *Table) ForeignKey(symbol string) (r *ForeignKey, ok bool)
+//@   requires t != nil
+//@   requires (forall i int :: 0 <= i && i < len(t.ForeignKeys) ==> t.ForeignKeys[i] != nil)
+//@   pure
+//@   modifies nothing
+//@   ensures found-iff-a-key-has-the-symbol: ok == (exists i int :: 0 <= i && i < len(t.ForeignKeys) && t.ForeignKeys[i].Symbol == symbol)
+//@   ensures found-key-is-listed-under-the-symbol: ok ==> r != nil && r.Symbol == symbol && (exists i int :: 0 <= i && i < len(t.ForeignKeys) && t.ForeignKeys[i] == r)
+//@   ensures !ok ==> r == nil
+//@   loop 1 invariant 0 <= loopk && loopk <= len(t.ForeignKeys)
+//@   loop 1 invariant (forall i int :: 0 <= i && i < loopk ==> t.ForeignKeys[i].Symbol != symbol)
+
+//@ func (s *Schema) Table(name string) (r *Table, ok bool)
+//@   requires s != nil
+//@   requires (forall i int :: 0 <= i && i < len(s.Tables) ==> s.Tables[i] != nil)
+//@   pure
+//@   modifies nothing
+//@   ensures found-iff-a-table-has-the-name: ok == (exists i int :: 0 <= i && i < len(s.Tables) && s.Tables[i].Name == name)
+//@   ensures found-table-is-listed-under-the-name: ok ==> r != nil && r.Name == name && (exists i int :: 0 <= i && i < len(s.Tables) && s.Tables[i] == r)
+//@   ensures !ok ==> r == nil
+//@   loop 1 invariant 0 <= loopk && loopk <= len(s.Tables)
+//@   loop 1 invariant (forall i int :: 0 <= i && i < loopk ==> s.Tables[i].Name != name)
